@@ -294,7 +294,13 @@ func (x *Exec) frameEnv(f *Frame, st *State, header *ssa.BasicBlock) *Env {
 				continue
 			}
 			if st.world.get(name) != nil {
-				continue // world component names are not shadowed by locals
+				// world component names are not shadowed by locals; the local stays reachable as l_<name>
+				if p, ok := g.sliceObjs[v]; ok {
+					env.vars["l_"+name] = p
+				} else if val, ok := g.regs[v]; ok {
+					env.vars["l_"+name] = val
+				}
+				continue
 			}
 			if p, ok := g.sliceObjs[v]; ok {
 				env.vars[name] = p
@@ -328,6 +334,13 @@ func (x *Exec) frameEnv(f *Frame, st *State, header *ssa.BasicBlock) *Env {
 					env.vars[phi.Comment] = v
 				}
 			}
+		}
+	}
+	// world component names are never shadowed by program variables; the variable stays reachable as l_<name>
+	for name, v := range env.vars {
+		if st.world.get(name) != nil {
+			env.vars["l_"+name] = v
+			delete(env.vars, name)
 		}
 	}
 	// iterators: it_idx / it_n / it_seq / it_snap refer to the most recently created iterator
